@@ -18,6 +18,8 @@
 #include <fstream>
 #include <iostream>
 #include <pthread.h>
+#include <unistd.h>
+#include <csignal>
 
 namespace vh
 {
@@ -299,6 +301,25 @@ inline void jbytes(std::string& o, const std::string& b)
     o += ']';
 }
 
+// watchdog: a parse that does not return within the budget ends the process with exit code 124 after naming the job
+inline char g_wd_job[256];
+inline void watchdog_handler(int)
+{
+    const char msg[] = "VERIF-TIMEOUT job=";
+    (void)!write(2, msg, sizeof msg - 1);
+    (void)!write(2, g_wd_job, strlen(g_wd_job));
+    (void)!write(2, "\n", 1);
+    _exit(124);
+}
+inline void watchdog_arm(const char* job)
+{
+    strncpy(g_wd_job, job, sizeof g_wd_job - 1);
+    signal(SIGALRM, watchdog_handler);
+    const char* t = getenv("VERIF_JOB_TIMEOUT");
+    alarm(t ? unsigned(atoi(t)) : 20u);
+}
+inline void watchdog_disarm() { alarm(0); }
+
 template<typename F>
 void run_big_stack(F&& f, size_t bytes = size_t(2) << 30)
 {
@@ -310,8 +331,23 @@ void run_big_stack(F&& f, size_t bytes = size_t(2) << 30)
 }
 
 // runs one parse of `p` and appends a trace record (one JSON line) to `out`
-template<typename P, size_t... Ns>
-struct cstr_dispatch;
+#ifdef VH_CSTR
+template<size_t N, typename F>
+void cstr_one(const std::string& bytes, F&& f)
+{
+    char arr[N] = {};
+    for (size_t i = 0; i + 1 < N; ++i) arr[i] = bytes[i];
+    ctpg::buffers::cstring_buffer<N> b(arr);
+    f(b);
+}
+template<size_t... I, typename F>
+bool cstr_dispatch(const std::string& bytes, std::index_sequence<I...>, F&& f)
+{
+    bool done = false;
+    ((bytes.size() == I ? (cstr_one<I + 1>(bytes, f), done = true) : false), ...);
+    return done;
+}
+#endif
 
 template<typename P>
 std::optional<Node> parse_with(const P& p, const Job& j, std::string& stream_text)
@@ -334,6 +370,16 @@ std::optional<Node> parse_with(const P& p, const Job& j, std::string& stream_tex
     };
     if (j.buf == 1) { buffers::string_buffer b{std::string(j.bytes)}; return go(b); }
     if (j.buf == 3) { checked_buffer b(j.bytes, 0); return go(b); }
+#ifdef VH_CSTR
+    if (j.buf == 2)
+    {
+        // cstring_buffer<N>: the size is a template argument, so run-time inputs are dispatched over N = len + 1
+        std::optional<Node> r;
+        bool done = cstr_dispatch(j.bytes, std::make_index_sequence<VH_CSTR>{}, [&](const auto& b) { r = go(b); });
+        if (!done) throw std::runtime_error("harness: input too long for the cstring_buffer dispatch");
+        return r;
+    }
+#endif
     buffers::string_view_buffer b{std::string_view(j.bytes)};
     return go(b);
 }
@@ -345,9 +391,11 @@ void run_job(const P& p, const Job& j, const std::string& gid, std::string& out)
     L.reset();
     std::string stream_text, threw;
     std::optional<Node> res;
+    watchdog_arm(j.id.c_str());
     try { res = parse_with(p, j, stream_text); }
     catch (const bounds_error& e) { threw = std::string("bounds:") + e.what(); }
     catch (const std::exception& e) { threw = std::string("exception:") + e.what(); }
+    watchdog_disarm();
     out += "{\"id\":"; jstr(out, j.id);
     out += ",\"g\":"; jstr(out, gid);
     out += ",\"buf\":" + std::to_string(j.buf) + ",\"stream\":" + std::to_string(j.stream);
@@ -358,8 +406,19 @@ void run_job(const P& p, const Job& j, const std::string& gid, std::string& out)
     out += ",\"partial\":"; jstr(out, L.cur);
     out += ",\"overflow\":"; out += L.overflow ? "true" : "false";
     out += ",\"stream_text\":"; jstr(out, stream_text);
+    // VERIF_LIGHT: very long inputs are run for the observers only - no tree, only out-of-range events
+    static const bool light = getenv("VERIF_LIGHT") != nullptr;
+    if (light)
+    {
+        std::vector<Event> keep;
+        for (const auto& e : L.ev) if (e.k.rfind("oob", 0) == 0 && keep.size() < 20) keep.push_back(e);
+        out += ",\"nevents\":" + std::to_string(L.ev.size()) + ",\"tree\":null,\"events\":"; jevents(out, keep);
+    }
+    else
+    {
     out += ",\"tree\":"; if (res.has_value()) jtree(out, res->t); else out += "null";
     out += ",\"events\":"; jevents(out, L.ev);
+    }
     out += "}\n";
 }
 } // namespace vh
